@@ -23,7 +23,7 @@ func main() {
 	repo := fs.String("repo", "/repo", "repository working tree")
 	contracts := fs.String("contracts", "/verif/contracts", "contract files")
 	work := fs.String("work", "/verif/work", "scratch directory for queries")
-	timeout := fs.Duration("timeout", 10*time.Second, "per-obligation solver timeout")
+	timeout := fs.Duration("timeout", 20*time.Second, "per-obligation solver timeout")
 	tier := fs.String("tier", "quick", "quick|thorough")
 	keep := fs.Bool("keep", false, "keep SMT queries")
 	verbose := fs.Bool("v", false, "verbose")
